@@ -34,6 +34,8 @@ def run(check):
     # "raises IncompatibleSignatures": also for what only the construction of the result finds (shared with C15.R13)
     from ..rules_escape import rule_validation_converted
     check.run_rule('C02.R9', lambda c: rule_validation_converted(c, 'C02.R9'))
+    from ..rules_defaults import rule_public_switch_defaults
+    check.run_rule('C02.R4d', lambda c: rule_public_switch_defaults(c, 'C02.R4', '_signatures:embed', 'plain forwarding of both star parameters'))
     check.run_rule('C02.R3', lambda c: rule_embed_dupes(c, model(), 'C02.R3'))
     check.run_rule('C02.R4', lambda c: rule_embed_flags(c, model(), 'C02.R4'))
 
